@@ -491,6 +491,92 @@ func (c *Ctx) mergeModel(rule string, f *ssa.Function) *mergeSummary {
 		lk, ok := x.Origin(v).(*ssa.Lookup)
 		return ok && x.Cell(lk.X) == idxCell && vField(lk.Index, "RuleName")
 	}
+	// posCheck: every value the position p can have at `at` is the low result of BinarySearch(list, v.Salience)
+	// (only on paths where mid == 0 was found) or its mid result (only on paths where mid != 0)
+	posCheck := func(pval ssa.Value, srcCell *ssa.Alloc, at ssa.Instruction) (bool, []string) {
+		okP := true
+		var whichs []string
+		pvs := x.PossibleValues(pval)
+		if len(pvs) == 0 {
+			okP = false
+		}
+		for _, pv := range pvs {
+			ex, isEx := pv.V.(*ssa.Extract)
+			if pv.V == nil || pv.Outside || !isEx {
+				okP = false
+				continue
+			}
+			call, isCall := ex.Tuple.(*ssa.Call)
+			if !isCall || !calleeIs(call, pTool, "", "BinarySearch") || x.Cell(call.Call.Args[0]) != srcCell || !vField(call.Call.Args[1], "Salience") || ex.Index > 1 {
+				okP = false
+				continue
+			}
+			// the edges on which `mid == 0` holds / does not hold
+			zero, nonzero := map[edgeKey]bool{}, map[edgeKey]bool{}
+			for _, blk := range f.Blocks {
+				iff, isIf := blk.Instrs[len(blk.Instrs)-1].(*ssa.If)
+				if !isIf {
+					continue
+				}
+				cond, pol := iff.Cond, true
+				for {
+					u, isU := cond.(*ssa.UnOp)
+					if !isU || u.Op != token.NOT {
+						break
+					}
+					cond, pol = x.Origin(u.X), !pol
+				}
+				bo, isB := cond.(*ssa.BinOp)
+				if !isB || (bo.Op != token.EQL && bo.Op != token.NEQ) {
+					continue
+				}
+				isMid := func(v ssa.Value) bool {
+					e2, isE2 := x.Origin(v).(*ssa.Extract)
+					return isE2 && e2.Tuple == ssa.Value(call) && e2.Index == 1
+				}
+				isZero := func(v ssa.Value) bool {
+					k, isKc := constInt(x.Origin(v))
+					return isKc && k == 0
+				}
+				if !((isMid(bo.X) && isZero(bo.Y)) || (isMid(bo.Y) && isZero(bo.X))) {
+					continue
+				}
+				zeroWhenTrue := (bo.Op == token.EQL) == pol
+				if zeroWhenTrue {
+					zero[edgeKey{blk, 0}], nonzero[edgeKey{blk, 1}] = true, true
+				} else {
+					zero[edgeKey{blk, 1}], nonzero[edgeKey{blk, 0}] = true, true
+				}
+			}
+			need, which := zero, "low (mid == 0)"
+			if ex.Index == 1 {
+				need, which = nonzero, "mid (mid != 0)"
+			}
+			if len(need) == 0 {
+				okP = false
+				continue
+			}
+			// a path from the search to this insertion that carries this value without
+			// having taken a required edge
+			reCall := func(i2 ssa.Instruction) bool { return i2 == ssa.Instruction(call) }
+			bad := false
+			if pv.Store == nil {
+				_, bad = pathExistsEB(f, call, func(i2 ssa.Instruction) bool { return i2 == at }, need, reCall)
+			} else {
+				cellP := x.directCell(x.lastLoad(pval))
+				_, r1 := pathExistsEB(f, call, func(i2 ssa.Instruction) bool { return i2 == ssa.Instruction(pv.Store) }, need, reCall)
+				_, r2 := pathExistsEB(f, pv.Store, func(i2 ssa.Instruction) bool { return i2 == at }, need, func(i2 ssa.Instruction) bool {
+					return reCall(i2) || (cellP != nil && x.isStoreTo(i2, cellP))
+				})
+				bad = r1 && r2
+			}
+			if bad {
+				okP = false
+			}
+			whichs = append(whichs, which)
+		}
+		return okP, whichs
+	}
 	// insertions, deletions, replacements
 	var insertStores, replaceStores, rebuildStores, mapUpdates []ssa.Instruction
 	insertTargets := map[*ssa.Alloc]bool{}
@@ -553,6 +639,25 @@ func (c *Ctx) mergeModel(rule string, f *ssa.Function) *mergeSummary {
 			// replacement: s[index] = v
 			if ia, ok := t.Addr.(*ssa.IndexAddr); ok {
 				if cell := x.Cell(ia.X); cell != nil && isListCell(cell) {
+					// the other way to write an insertion: grow by one, shift the tail, store --
+					// `s = append(s, nil); copy(s[p+1:], s[p:]); s[p] = v`
+					if okGrow, okShift := growShift(x, t, ia, cell); okShift {
+						nIns++
+						ikey := fmt.Sprintf("%s#insert%d", key, nIns)
+						insertTargets[cell] = true
+						okIre := isV(t.Val)
+						okP, whichs := posCheck(ia.Index, cell, in)
+						sort.Strings(whichs)
+						insertStores = append(insertStores, in)
+						for _, w := range whichs {
+							sum.add("insert v at %s of BinarySearch(s, v.Salience): shape=%v single=%v position=%v", w, okGrow, okIre, okP)
+						}
+						if len(whichs) == 0 {
+							sum.add("insert v at ? of BinarySearch(s, v.Salience): shape=%v single=%v position=%v", okGrow, okIre, okP)
+						}
+						c.Check(rule, ikey, okGrow && okIre && okP, in.Pos(), "an insertion written as grow / shift / store must grow the same slice variable by one element, shift s[p:] to s[p+1:] and store v at p, the binary-search position of v.Salience in that variable (shape %v, inserts exactly v %v, position %v)", okGrow, okIre, okP)
+						return
+					}
 					nRep++
 					okIdx := isIndex(ia.Index) && isV(t.Val)
 					okGuard := false
@@ -656,87 +761,7 @@ func (c *Ctx) mergeModel(rule string, f *ssa.Function) *mergeSummary {
 				// have here is the low result (only on paths where mid == 0 was found) or the
 				// mid result (only on paths where mid != 0), whether p is the result itself in
 				// two branches or a position variable assigned from them
-				okP := true
-				var whichs []string
-				pvs := x.PossibleValues(front.High)
-				if len(pvs) == 0 {
-					okP = false
-				}
-				for _, pv := range pvs {
-					ex, isEx := pv.V.(*ssa.Extract)
-					if pv.V == nil || pv.Outside || !isEx {
-						okP = false
-						continue
-					}
-					call, isCall := ex.Tuple.(*ssa.Call)
-					if !isCall || !calleeIs(call, pTool, "", "BinarySearch") || x.Cell(call.Call.Args[0]) != srcCell || !vField(call.Call.Args[1], "Salience") || ex.Index > 1 {
-						okP = false
-						continue
-					}
-					// the edges on which `mid == 0` holds / does not hold
-					zero, nonzero := map[edgeKey]bool{}, map[edgeKey]bool{}
-					for _, blk := range f.Blocks {
-						iff, isIf := blk.Instrs[len(blk.Instrs)-1].(*ssa.If)
-						if !isIf {
-							continue
-						}
-						cond, pol := iff.Cond, true
-						for {
-							u, isU := cond.(*ssa.UnOp)
-							if !isU || u.Op != token.NOT {
-								break
-							}
-							cond, pol = x.Origin(u.X), !pol
-						}
-						bo, isB := cond.(*ssa.BinOp)
-						if !isB || (bo.Op != token.EQL && bo.Op != token.NEQ) {
-							continue
-						}
-						isMid := func(v ssa.Value) bool {
-							e2, isE2 := x.Origin(v).(*ssa.Extract)
-							return isE2 && e2.Tuple == ssa.Value(call) && e2.Index == 1
-						}
-						isZero := func(v ssa.Value) bool {
-							k, isKc := constInt(x.Origin(v))
-							return isKc && k == 0
-						}
-						if !((isMid(bo.X) && isZero(bo.Y)) || (isMid(bo.Y) && isZero(bo.X))) {
-							continue
-						}
-						zeroWhenTrue := (bo.Op == token.EQL) == pol
-						if zeroWhenTrue {
-							zero[edgeKey{blk, 0}], nonzero[edgeKey{blk, 1}] = true, true
-						} else {
-							zero[edgeKey{blk, 1}], nonzero[edgeKey{blk, 0}] = true, true
-						}
-					}
-					need, which := zero, "low (mid == 0)"
-					if ex.Index == 1 {
-						need, which = nonzero, "mid (mid != 0)"
-					}
-					if len(need) == 0 {
-						okP = false
-						continue
-					}
-					// a path from the search to this insertion that carries this value without
-					// having taken a required edge
-					reCall := func(i2 ssa.Instruction) bool { return i2 == ssa.Instruction(call) }
-					bad := false
-					if pv.Store == nil {
-						_, bad = pathExistsEB(f, call, func(i2 ssa.Instruction) bool { return i2 == in }, need, reCall)
-					} else {
-						cellP := x.directCell(x.lastLoad(front.High))
-						_, r1 := pathExistsEB(f, call, func(i2 ssa.Instruction) bool { return i2 == ssa.Instruction(pv.Store) }, need, reCall)
-						_, r2 := pathExistsEB(f, pv.Store, func(i2 ssa.Instruction) bool { return i2 == in }, need, func(i2 ssa.Instruction) bool {
-							return reCall(i2) || (cellP != nil && x.isStoreTo(i2, cellP))
-						})
-						bad = r1 && r2
-					}
-					if bad {
-						okP = false
-					}
-					whichs = append(whichs, which)
-				}
+				okP, whichs := posCheck(front.High, srcCell, in)
 				sort.Strings(whichs)
 				which := strings.Join(whichs, " / ")
 				if which == "" {
@@ -1366,4 +1391,67 @@ func (c *Ctx) ruleFullBuildAndRemoval(rule string) {
 func reaches(f *ssa.Function, from, to ssa.Instruction) bool {
 	_, ok := pathExists(f, from, func(in ssa.Instruction) bool { return in == to }, nil)
 	return ok
+}
+
+// growShift: the element store st (`s[p] = v`, s read from cell) is the last step of an insertion written
+// `s = append(s, <one element>); copy(s[p+1:], s[p:]); s[p] = v`: in the block of the store, before it, a
+// copy from s[p:] to s[p+1:] of the same variable (shift), preceded by an append of one element to the
+// variable stored back into it (grow), with no other store to the variable in between.
+func growShift(x *FnIndex, st *ssa.Store, ia *ssa.IndexAddr, cell *ssa.Alloc) (grow, shift bool) {
+	b := st.Block()
+	at := instrIdx(st)
+	ci := -1
+	for i := at - 1; i >= 0; i-- {
+		if x.isStoreTo(b.Instrs[i], cell) {
+			break
+		}
+		call, ok := b.Instrs[i].(*ssa.Call)
+		if !ok {
+			continue
+		}
+		args, isCopy := builtinCall(call, "copy")
+		if !isCopy || len(args) != 2 {
+			continue
+		}
+		dst, ok1 := x.Origin(args[0]).(*ssa.Slice)
+		src, ok2 := x.Origin(args[1]).(*ssa.Slice)
+		if !ok1 || !ok2 || dst.High != nil || src.High != nil || dst.Low == nil || src.Low == nil {
+			continue
+		}
+		if x.Cell(dst.X) != cell || x.Cell(src.X) != cell || !x.sameValue(src.Low, ia.Index) {
+			continue
+		}
+		bo, isB := x.Origin(dst.Low).(*ssa.BinOp)
+		if !isB || bo.Op != token.ADD || !x.sameValue(bo.X, ia.Index) {
+			continue
+		}
+		if k, isK := constInt(bo.Y); !isK || k != 1 {
+			continue
+		}
+		ci = i
+		break
+	}
+	if ci < 0 {
+		return false, false
+	}
+	shift = true
+	// the grow step: the last store to the variable before the copy, in this block or on the only way here
+	for blk, from := b, ci-1; blk != nil; {
+		for i := from; i >= 0; i-- {
+			if !x.isStoreTo(blk.Instrs[i], cell) {
+				continue
+			}
+			args, isApp := builtinCall(blk.Instrs[i].(*ssa.Store).Val, "append")
+			if !isApp || len(args) != 2 || x.Cell(args[0]) != cell {
+				return false, true
+			}
+			return len(x.variadicElems(args[1])) == 1, true
+		}
+		if len(blk.Preds) != 1 {
+			return false, true
+		}
+		blk = blk.Preds[0]
+		from = len(blk.Instrs) - 1
+	}
+	return false, true
 }
